@@ -90,6 +90,86 @@ def _events(fn, inline_nested: bool = False, returns: bool = False, strict: bool
     return out
 
 
+def _unconditional(fn) -> list[str]:
+    """names of the calls (and `raise`s) that EVERY execution of `fn` that reaches its end makes, in source order: the calls in
+    the top-level statements of the body (and of `with` bodies), the test of a top-level `if` / `while` included, but nothing
+    inside the branches of a compound statement, the later operands of `and` / `or`, the branches of a conditional expression,
+    comprehensions or lambdas.  Collection stops at the first compound statement that contains a `return` (what follows runs
+    only when it did not return)."""
+    out = []
+
+    def expr(node):
+        if node is None or isinstance(node, (ast.Lambda, ast.ListComp, ast.SetComp, ast.DictComp, ast.GeneratorExp)):
+            return
+        if isinstance(node, ast.BoolOp):
+            expr(node.values[0])
+            return
+        if isinstance(node, ast.IfExp):
+            expr(node.test)
+            return
+        if isinstance(node, ast.Call):
+            for a in list(node.args) + [k.value for k in node.keywords]:
+                expr(a)
+            if not isinstance(node.func, (ast.Name, ast.Attribute)):
+                expr(node.func)
+            out.append(_dotted(node.func) or "<expr>")
+            return
+        for child in ast.iter_child_nodes(node):
+            expr(child)
+
+    def has_return(node):
+        return any(isinstance(n, ast.Return) for n in ast.walk(node))
+
+    def block(stmts) -> bool:
+        """False when the collection has to stop"""
+        for st in stmts:
+            if isinstance(st, (ast.FunctionDef, ast.AsyncFunctionDef, ast.ClassDef)):
+                continue
+            if isinstance(st, ast.Return):
+                expr(st.value)
+                return False
+            if isinstance(st, ast.Raise):
+                out.append("raise")
+                return False
+            if isinstance(st, (ast.If, ast.While)):
+                expr(st.test)
+                if has_return(st):
+                    return False
+                continue
+            if isinstance(st, (ast.For, ast.AsyncFor)):
+                expr(st.iter)
+                if has_return(st):
+                    return False
+                continue
+            if isinstance(st, (ast.With, ast.AsyncWith)):
+                for it in st.items:
+                    expr(it.context_expr)
+                if not block(st.body):
+                    return False
+                continue
+            if isinstance(st, (ast.Try, ast.Match)) or (hasattr(ast, "TryStar") and isinstance(st, ast.TryStar)):
+                if has_return(st):
+                    return False
+                continue
+            expr(st)
+        return True
+
+    block(fn.body)
+    return out
+
+
+def extract_unconditional(repo: str) -> list[str]:
+    """the calls `prepare_run` makes on EVERY path to its end, `RunInfo.create` inlined (when it is itself called unconditionally)"""
+    prep = ast.parse((Path(repo) / "pipefunc" / "map" / "_prepare.py").read_text())
+    info = ast.parse((Path(repo) / "pipefunc" / "map" / "_run_info.py").read_text())
+    outer = _unconditional(_find_func(prep, "prepare_run"))
+    if outer.count("RunInfo.create") != 1:
+        raise ExtractionError("prepare_run does not call RunInfo.create unconditionally exactly once")
+    inner = _unconditional(_find_func(info, "create", cls="RunInfo"))
+    k = outer.index("RunInfo.create")
+    return outer[:k] + inner + outer[k + 1:]
+
+
 def extract(repo: str) -> list[str]:
     prep = ast.parse((Path(repo) / "pipefunc" / "map" / "_prepare.py").read_text())
     info = ast.parse((Path(repo) / "pipefunc" / "map" / "_run_info.py").read_text())
@@ -160,6 +240,9 @@ def render(calls: list[str] | None, why: str = "", extra: dict | None = None) ->
         items = ",\n   ".join('"' + c.replace('"', "") + '"' for c in calls)
         body = ("/-- calls and `raise`s of `prepare_run`, `RunInfo.create` inlined, in source order -/\n"
                 f"def prepareRunCalls : List String :=\n  [{items}]\n")
+    c, w = (extra or {}).get("prepareRunUnconditional", (None, "not extracted"))
+    body += "\n" + _render_list("prepareRunUnconditional", "calls that EVERY execution of `prepare_run` reaching its end makes (top-level "
+                                "statements only, `RunInfo.create` inlined), in source order", c, w)
     for name, rel, cls, fn, _ in EXTRA:
         c, w = (extra or {}).get(name, (None, "not extracted"))
         body += "\n" + _render_list(name, f"calls, `raise`s and `return`s of `{(cls + '.') if cls else ''}{fn}` ({rel}), in source order", c, w)
@@ -173,6 +256,10 @@ def write(repo: str | None = None) -> tuple[bool, str]:
     except (ExtractionError, OSError, SyntaxError) as e:
         calls, why = None, f"{type(e).__name__}: {e}"
     extra = extract_extra(repo)
+    try:
+        extra["prepareRunUnconditional"] = (extract_unconditional(repo), "")
+    except (ExtractionError, OSError, SyntaxError) as e:
+        extra["prepareRunUnconditional"] = (None, f"{type(e).__name__}: {e}")
     bad = [f"{n}: {w}" for n, (c, w) in extra.items() if c is None]
     text = render(calls, why, extra)
     OUT.parent.mkdir(parents=True, exist_ok=True)
